@@ -79,7 +79,9 @@ fn build(c: &'static Coin, case: &Case) -> ChainBuilder {
         // cb_delta 31337: blocks alternate between collecting 5000 in fees and claiming 1000 less than the subsidy
         // (fees are floored at zero per coinbase, not over the whole range)
         let delta = if case.cb_delta == 31337 { if i % 2 == 0 { 5000 } else { -1000 } } else { case.cb_delta };
-        let v = if case.cb_delta == i64::MIN { 0 } else { (reward as i64 + delta).max(0) as u64 };
+        // cb_delta i64::MAX: the first coinbase's first output lies in the upper half of the 8-byte amount field (2^63 + 7; the
+        // volume of the whole range stays below 2^64)
+        let v = if case.cb_delta == i64::MIN { 0 } else if case.cb_delta == i64::MAX { if i == 0 { (1u64 << 63) + 7 } else { reward } } else { (reward as i64 + delta).max(0) as u64 };
         let filler_out = if case.mix == 9 { vec![TxOut { value: 1, script: vec![0x51; (i * 3) % 3000 + i / 4] }] } else { vec![] };
         let mut txs = vec![coinbase(h, 5, [vec![pay(1, v), pay(2, 1234), TxOut { value: 0, script: refmodel::script::op_return(format!("block {}", h).as_bytes()) }], filler_out].concat())];
         if case.label == "coinbase forms" {
@@ -162,6 +164,9 @@ pub fn run() -> Report {
         for base in [0u64, 209_999, 210_000, 419_999, 6_930_000, 13_439_999] {
             for d in [-1i64, 0, 1, 5000, i64::MIN] {
                 cases.push(Case { coin: cn, base, times: vec![1000, 2000, 2500], mix: 1, cb_delta: d, types_world: false, label: "reward boundaries" });
+            }
+            if base == 0 || base == 210_000 {
+                cases.push(Case { coin: cn, base, times: vec![1000, 2000, 2500], mix: 1, cb_delta: i64::MAX, types_world: false, label: "coinbase amount in the upper half of the field" });
             }
         }
         for n in [2usize, 3, 4, 5] {
